@@ -30,7 +30,12 @@ RULE = (
     "without initial state, 1 with each of 3 per-element bias rows, 3 (and 2 in thorough) with "
     "permuted/repeated rows}; plus searches without step limit (eos set, deep rows force eos) and a "
     "step-by-step drive of functional.beam_search_advance (fixed and varying widths, with/without lengths, "
-    "ragged lengths produced by emulated eos). One case = one search (one trajectory) resp. one advance "
+    "ragged lengths produced by emulated eos); plus object-reuse histories: per table, every ordered pair "
+    "(a, b) of a 16-entry configuration menu (width, eos, finish_all_paths, pad_value, max_iters, batch size "
+    "unset/1/2/3, initial state) on ONE module object - built for a, called with a, public attributes and "
+    "arguments changed to b, called, changed back to a, called - where the 2nd and 3rd results must satisfy "
+    "the per-result property and equal, column by column, what a fresh object returns (alternately the "
+    "unsubclassed module and the observing subclass). One case = one search (one trajectory) resp. one advance "
     "step; distinct by construction (cartesian product of duplicate-free menus). Non-trivial = the "
     "reference search pruned at least one candidate or some returned path ended early by eos."
 )
@@ -46,7 +51,10 @@ ASSUMPTIONS = [
     "with zero-probability tokens, completeness is demanded for positive-probability sequences only",
     "the per-step observations use the documented subclass hook update_log_probs_for_step (identity); "
     "unsubclassed BeamSearch is run for the batch_size=None cases and must agree",
-    "TorchScript-compiled and CUDA variants not explored; pad_value left at its default",
+    "object-reuse histories have length 3 (a, b, a) over a fixed menu; width/eos/finish_all_paths/pad_value "
+    "are changed by assigning the module's public attributes of the same names; padding contents are compared "
+    "only between reused and fresh objects (usable slots), not against a model",
+    "TorchScript-compiled and CUDA variants not explored; pad_value is varied only in the object-reuse part",
 ]
 BUDGET_S = {"quick": 240, "thorough": 2400}
 
@@ -92,6 +100,7 @@ def shards(tier, seed):
         for table in _tables(tier):
             out.append({"kind": "unbounded", "V": V, "T": T, "table": table})
             out.append({"kind": "advance", "V": V, "T": T, "table": table})
+            out.append({"kind": "reuse", "V": V, "T": T, "table": table})
     return out
 
 
@@ -102,15 +111,22 @@ def _batch_tag(batch_size):
     return "unset" if batch_size is None else str(batch_size)
 
 
-def _run_search(ctx, case, lm, width, eos, fap, max_iters, batch_size, offs, observed, with_state=True):
-    """returns (per-element slot lists, observed steps or None) or None after reporting a violation.
-    slot = (tokens tuple or None if unusable, score)"""
+def _run_search(ctx, case, lm, width, eos, fap, max_iters, batch_size, offs, observed, with_state=True,
+                bs=None, sig_extra=None):
+    """returns (per-element slot lists, observed steps or None, raw) or None after reporting a violation.
+    slot = (tokens tuple or None if unusable, score); raw = per element, per slot the whole returned column
+    of y (None for unusable slots).  bs: an existing module object to call (object-reuse histories), whose
+    attributes the caller has already set to (width, eos, fap)."""
     V = lm.vocab_size
     N = 1 if batch_size is None else batch_size
     lm.calls_left = STEP_CAP
+    sig_extra = sig_extra or {}
     try:
-        cls = ObservedBeamSearch if observed else M.BeamSearch
-        bs = cls(lm, width, eos=eos, finish_all_paths=fap) if eos is not None else cls(lm, width)
+        if bs is None:
+            cls = ObservedBeamSearch if observed else M.BeamSearch
+            bs = cls(lm, width, eos=eos, finish_all_paths=fap) if eos is not None else cls(lm, width)
+        elif observed:
+            bs.steps = []
         init = {"off": torch.tensor(list(offs), dtype=torch.long)} if with_state else None
         if init is None:
             y, lens, lp = bs(batch_size=batch_size, max_iters=max_iters)
@@ -121,14 +137,14 @@ def _run_search(ctx, case, lm, width, eos, fap, max_iters, batch_size, offs, obs
                    "does-not-terminate" if isinstance(e, SearchDoesNotTerminate) else "raises")
         ctx.violation({"api": BS, "symptom": symptom, "type": type(e).__name__, "eos_set": eos is not None,
                        "fap": fap, "max_iters_unset": max_iters is None,
-                       "zero_probability_tokens": "hard-zero" in lm.model.name},
+                       "zero_probability_tokens": "hard-zero" in lm.model.name, **sig_extra},
                       case, {"error": repr(e)[-400:], "offs": list(offs), "batch_size": batch_size,
                              "observed_subclass": observed})
         return None
     want_tail = (width,) if batch_size is None else (N, width)
     if (y.dim() != len(want_tail) + 1 or tuple(y.shape[1:]) != want_tail or tuple(lens.shape) != want_tail
             or tuple(lp.shape) != want_tail):
-        ctx.violation({"api": BS, "symptom": "wrong-shape", "batch": _batch_tag(batch_size)}, case,
+        ctx.violation({"api": BS, "symptom": "wrong-shape", "batch": _batch_tag(batch_size), **sig_extra}, case,
                       {"y": list(y.shape), "y_lens": list(lens.shape), "y_log_probs": list(lp.shape)})
         return None
     if batch_size is None:
@@ -138,8 +154,10 @@ def _run_search(ctx, case, lm, width, eos, fap, max_iters, batch_size, offs, obs
     ll = lens.tolist()
     pl = lp.tolist()
     elems = []
+    raw = []
     for n in range(N):
         slots = []
+        raw.append([yl[n][k] if pl[n][k] != NEG_INF else None for k in range(width)])
         for k in range(width):
             sc = pl[n][k]
             if sc == NEG_INF:
@@ -155,7 +173,7 @@ def _run_search(ctx, case, lm, width, eos, fap, max_iters, batch_size, offs, obs
                 return None
             slots.append((tuple(yl[n][k][: ll[n][k]]), sc))
         elems.append(slots)
-    return elems, (bs.steps if observed else None)
+    return elems, (bs.steps if observed else None), raw
 
 
 # ---------------------------------------------------------------------------------------------
@@ -312,7 +330,7 @@ def _check_config(ctx, model, lm, eos, fap, width, max_iters, tier, seed, deep=F
         if got is None:
             ctx.case(1, 0)
             return None, None
-        elems, steps = got
+        elems, steps, _ = got
         ctx.case(1, 1 if nontrivial(offs, elems) else 0)
         ok = True
         for n, o in enumerate(offs):
@@ -356,6 +374,130 @@ def _check_config(ctx, model, lm, eos, fap, width, max_iters, tier, seed, deep=F
                                "eos_set": eos is not None}, case,
                               {"offs": list(offs), "element": n, "alone": alone[o], "in_batch": elems[n]})
                 break
+
+
+# ---------------------------------------------------------------------------------------------
+# histories on ONE module object: call, change public attributes / arguments, call again
+# ---------------------------------------------------------------------------------------------
+_DIMS = ("width", "eos", "fap", "pad_value", "max_iters", "batch_size", "offs")
+
+
+def _reuse_menu(V, T):
+    """configurations (dicts over _DIMS); each differs from the first in one or two respects"""
+    base = {"width": 2, "eos": V - 1, "fap": False, "pad_value": None, "max_iters": T, "batch_size": 3,
+            "offs": (0, 1, 2)}
+    menu = [base]
+    for change in (
+        {"width": 3}, {"width": 1}, {"width": V ** T + 3}, {"eos": 0}, {"eos": None}, {"fap": True},
+        {"pad_value": -7}, {"max_iters": 1}, {"max_iters": T - 1, "fap": True}, {"offs": (2, 0, 1)},
+        {"batch_size": 1, "offs": (1,)}, {"batch_size": 1, "offs": (2,), "width": 3},
+        {"batch_size": None, "offs": (0,)}, {"batch_size": 2, "offs": (2, 0), "width": 3},
+        {"width": 3, "eos": 0, "fap": True, "offs": (1, 1, 0), "max_iters": 2},
+    ):
+        menu.append(dict(base, **change))
+    return menu
+
+
+def _set_attrs(bs, cfg):
+    bs.width = cfg["width"]
+    bs.eos = cfg["eos"]
+    bs.finish_all_paths = cfg["fap"]
+    bs.pad_value = _pad(cfg)
+
+
+def _pad(cfg):
+    from pydrobert.torch import config as ptconfig
+
+    return ptconfig.INDEX_PAD_VALUE if cfg["pad_value"] is None else cfg["pad_value"]
+
+
+def _new_object(lm, cfg, observed):
+    cls = ObservedBeamSearch if observed else M.BeamSearch
+    if cfg["eos"] is None:
+        return cls(lm, cfg["width"], pad_value=_pad(cfg))
+    return cls(lm, cfg["width"], eos=cfg["eos"], finish_all_paths=cfg["fap"], pad_value=_pad(cfg))
+
+
+def _check_reuse_pair(ctx, model, lm, a, b, observed, tier, seed, fresh_cache=None):
+    """object built for configuration a; calls a, b, a.  The 2nd/3rd result must satisfy the per-result
+    property and equal (whole returned columns of the usable slots) what a fresh object returns."""
+    V = model.V
+    changed = [d for d in _DIMS if a[d] != b[d]]
+    case = {"kind": "reuse", "V": V, "T": model.depth, "table": model.name, "seed": seed, "tier": tier,
+            "first": dict(a, offs=list(a["offs"])), "second": dict(b, offs=list(b["offs"])), "observed": observed}
+    fresh_cache = {} if fresh_cache is None else fresh_cache
+
+    def refs_for(cfg):
+        key = ("ref",) + tuple(cfg[d] for d in _DIMS)
+        if key not in fresh_cache:
+            out = {}
+            for o in set(cfg["offs"]):
+                out[o] = (O.reference_beam(model, o, cfg["width"], cfg["eos"], cfg["fap"], cfg["max_iters"]),
+                          O.complete_sequences(model, o, cfg["eos"], cfg["max_iters"]))
+            fresh_cache[key] = out
+        return fresh_cache[key]
+
+    def call(cfg, bs, sig_extra):
+        if bs is None:
+            bs = _new_object(lm, cfg, False)
+        return _run_search(ctx, case, lm, cfg["width"], cfg["eos"], cfg["fap"], cfg["max_iters"], cfg["batch_size"],
+                           cfg["offs"], isinstance(bs, ObservedBeamSearch), True, bs=bs, sig_extra=sig_extra)
+
+    def fresh(cfg):
+        key = ("fresh",) + tuple(cfg[d] for d in _DIMS)
+        if key not in fresh_cache:
+            fresh_cache[key] = call(cfg, None, {"reused_object": False})
+        return fresh_cache[key]
+
+    try:
+        bs = _new_object(lm, a, observed)
+    except Exception as e:
+        ctx.violation({"api": BS, "symptom": "raises", "type": type(e).__name__, "where": "constructor"}, case,
+                      {"error": repr(e)[-300:]})
+        return
+    for call_no, cfg in enumerate((a, b, a), start=1):
+        ctx.transitions += 1
+        ctx.state(("reuse", model.name, V, call_no) + tuple(str(cfg[d]) for d in _DIMS))
+        if call_no > 1:
+            _set_attrs(bs, cfg)
+        sig_extra = {"reused_object": call_no > 1, "changed": changed if call_no > 1 else []}
+        got = call(cfg, bs, sig_extra)
+        ctx.case(1, 1 if call_no > 1 and changed else 0)
+        if got is None:
+            return
+        if call_no == 1:
+            continue  # an ordinary first call: judged as the fresh result of a
+        elems, steps, raw = got
+        ok = True
+        refs = refs_for(cfg)
+        for n, o in enumerate(cfg["offs"]):
+            info = {"batch_size": cfg["batch_size"], "N": len(cfg["offs"]), "element": n, "offs": list(cfg["offs"]),
+                    "call": call_no, "changed": changed}
+            ok = _check_elem(ctx, case, model, o, cfg["eos"], cfg["fap"], cfg["width"], cfg["max_iters"], elems[n],
+                             refs[o][0], refs[o][1], info) and ok
+        if steps is not None:
+            ok = _check_steps(ctx, case, model, cfg["offs"], cfg["eos"], cfg["fap"], steps,
+                              {"call": call_no, "changed": changed}) is not None and ok
+        fr = fresh(cfg)
+        if fr is not None:
+            f_elems, _, f_raw = fr
+            same = all(_same_slots(x, y) for x, y in zip(elems, f_elems)) and raw == f_raw
+            if not same:
+                ctx.violation({"api": BS, "symptom": "reused-object-differs-from-fresh", "changed": changed,
+                               "call": call_no}, case,
+                              {"reused": elems, "fresh": f_elems, "reused_columns": raw, "fresh_columns": f_raw})
+                ok = False
+        if ok:
+            ctx.traces += 1
+            ctx.count("object_reuse_calls_equal_to_fresh")
+
+
+def _check_reuse(ctx, model, lm, tier, seed):
+    menu = _reuse_menu(model.V, model.depth)
+    cache = {}
+    for i, a in enumerate(menu):
+        for j, b in enumerate(menu):
+            _check_reuse_pair(ctx, model, lm, a, b, (i + j) % 2 == 1, tier, seed, cache)
 
 
 # ---------------------------------------------------------------------------------------------
@@ -508,6 +650,9 @@ def run_shard(spec, tier, seed):
                 for width in sorted({1, 2, 3, 5, V ** T + 3}):
                     _check_config(ctx, model, lm, eos, fap, width, None, tier, seed, deep=True)
                     ctx.count("searches_without_step_limit_configs")
+    elif spec["kind"] == "reuse":
+        model = O.make_model(V, T, spec["table"], seed)
+        _check_reuse(ctx, model, TableLM(model), tier, seed)
     else:
         model = O.make_model(V, T, spec["table"], seed)
         for eos in [None] + list(range(V)):
@@ -533,6 +678,10 @@ def replay(case):
             model = O.make_model(V, T, case["table"], seed)
         _check_config(ctx, model, TableLM(model), case["eos"], case["fap"], case["width"], case["max_iters"],
                       tier, seed, deep=bool(case.get("deep")))
+    elif case["kind"] == "reuse":
+        model = O.make_model(V, T, case["table"], seed)
+        a, b = (dict(c, offs=tuple(c["offs"])) for c in (case["first"], case["second"]))
+        _check_reuse_pair(ctx, model, TableLM(model), a, b, case["observed"], tier, seed)
     elif case["kind"] == "advance":
         model = O.make_model(V, T, case["table"], seed)
         _drive_advance(ctx, model, tuple(case["offs"]), case["widths"], case["eos"], case["use_lens"], seed, tier)
